@@ -67,7 +67,7 @@ def scn(votes="{}", certs=(), blocks=(), waits=()):
 
 def run_model(ctx, name, stakes, own, max_slot, scenarios, invariants, relevant,
               sample=None, workers=8, dump=True, witnesses=(), timeout=1500, budget=0,
-              check_workers=12, max_div=60, constraint=None):
+              check_workers=12, max_div=60, constraint=None, scale=0, scale_sample=150000):
     """1. TLC checks the invariants on the model (all workers).
        2. TLC dumps every transition; the harness replays them into the real PoolImpl."""
     n = len(stakes)
@@ -94,6 +94,17 @@ def run_model(ctx, name, stakes, own, max_slot, scenarios, invariants, relevant,
     if not sample and not budget and rep["div_count"] == 0 and rep["covered"] != rep["edges"]:
         raise ToolError(f"{name}: replay covered {rep['covered']} of {rep['edges']} edges")
     ctx.replay_report(name, rep, relevant)
+    if scale:
+        # the model only depends on stake ratios (every threshold is v * den >= total * num, and both sides
+        # scale linearly): the same transitions must be reproduced when all stakes are multiplied by `scale`
+        a2 = [x for x in args]
+        if "--sample" in a2:
+            i = a2.index("--sample"); del a2[i:i + 2]
+        a2 += ["--stake-scale", scale, "--sample", scale_sample]
+        rep2 = ctx.harness(a2)
+        rep2["model"] = name + f"_x{scale:.0e}"
+        ctx.exhaustive = False
+        ctx.replay_report(name + f"_x{scale:.0e}", rep2, relevant)
     import os
     try:
         os.remove(r2.out_path)
